@@ -205,23 +205,62 @@ def batch_err(R, ro, rule, hier):
     R.need(comp is not None, "anchor vanished: BatchBase._computed")
     from .c05 import item_once
     item_once(R, comp, rule + ".ITEMS")
-    errnames = [t for t in ("error",)]
+    ccfg = cfg_of(comp)
+
+    def batch_error_name(nm):
+        vals = common.assigned_values(comp.node, nm)
+        return bool(vals) and all(k == "expr" and q.src(v) in ("self.error()", "self._error") for k, v in vals)
+    # names meaning "the batch finished with an error": `cancelled = error is not None`
+    cancelled_names = set()
+    for n in q.scope_nodes(comp.node):
+        if isinstance(n, ast.Assign) and isinstance(n.value, ast.Compare):
+            k_, s_, pos_ = q.atom_test(n.value)
+            if k_ == "isnone" and batch_error_name(s_) and not pos_:
+                cancelled_names.update(t.id for t in n.targets if isinstance(t, ast.Name))
+
+    def failed_test(e):
+        """+1 if expression e is true exactly when the batch has an error, -1 if exactly when it has none, else 0"""
+        k_, s_, pos_ = q.atom_test(e)
+        if k_ == "truth" and s_ in cancelled_names:
+            return 1 if pos_ else -1
+        if k_ == "isnone" and isinstance(s_, str) and batch_error_name(s_):
+            return -1 if pos_ else 1
+        return 0
+    n_own = 0
     for lp in [n for n in ast.walk(comp.node) if isinstance(n, ast.For) and q.dotted(n.iter) == "self.items"]:
         for c in q.calls(lp):
-            if q.attr_call(c)[1] == "set_error" and c.args:
-                a = c.args[0]
-                cands = [a.body, a.orelse] if isinstance(a, ast.IfExp) else [a]
-                names = [x for x in cands if isinstance(x, ast.Name)]
+            if q.attr_call(c)[1] != "set_error" or not c.args:
+                continue
+            a = c.args[0]
+            site = R.site(comp, c)
+            key = "%s:%s" % (comp.qualname, q.stmt_key(c)[:40])
+            if isinstance(a, ast.IfExp):
+                pol = failed_test(a.test)
+                own, other = (a.body, a.orelse) if pol > 0 else (a.orelse, a.body)
+                ok = pol != 0 and isinstance(own, ast.Name) and batch_error_name(own.id) and isinstance(other, ast.Call) and q.call_name(other) == "AssertionError"
+                n_own += 1 if ok else 0
+            elif isinstance(a, ast.Name) and batch_error_name(a.id):
+                ok = True
+                n_own += 1
+            elif isinstance(a, ast.Call) and q.call_name(a) == "AssertionError":
+                # only when the batch has no error of its own
+                nodes = [n for n in ccfg.nodes if c in kit.node_calls(n)]
+
+                def no_error(nd):
+                    if nd.kind != "test":
+                        return None
+                    pol = failed_test(nd.ast)
+                    if pol == 0:
+                        return None
+                    return "F" if pol > 0 else "T"
+                ok = bool(nodes) and kit.path_avoiding_guard(ccfg, nodes, no_error, N) is None
+            else:
                 ok = False
-                for nm in names:
-                    vals = common.assigned_values(comp.node, nm.id)
-                    if vals and all(k == "expr" and q.src(v) in ("self.error()", "self._error") for k, v in vals):
-                        ok = True
-                others = [x for x in cands if not isinstance(x, ast.Name)]
-                ok = ok and all(isinstance(x, ast.Call) and q.call_name(x) == "AssertionError" for x in others)
-                R.check(ok, rule + ".SAME-INSTANCE", "%s:%s" % (comp.qualname, q.stmt_key(c)[:40]), R.site(comp, c),
-                        "items left unset receive the batch's own error object (or an AssertionError when the flush succeeded)",
-                        "items left unset by a failed flush receive something other than the batch's own exception instance (%s)" % q.src(a)[:80])
+            R.check(ok, rule + ".SAME-INSTANCE", key, site,
+                    "items left unset receive the batch's own error object (an AssertionError only when the flush itself succeeded)",
+                    "items left unset by a failed flush receive something other than the batch's own exception instance (%s)" % q.src(a)[:80])
+    R.check(n_own >= 1, rule + ".SAME-INSTANCE", comp.qualname + ":own", R.site(comp),
+            "the batch's own error object is handed to the unset items", "no item completion passes the batch's own error object")
     # the item loop runs on every path of _computed before the base notification
     cfg = cfg_of(comp)
     base = kit.call_sites(comp, lambda c: q.attr_call(c)[1] == "_computed" and q.dotted(q.attr_call(c)[0]) in ("futures.FutureBase", "FutureBase", "super()"))
